@@ -216,6 +216,21 @@ R8 = {
  "C19": "ceiling taken of a real quotient",
 }
 
+# Clauses added in round 11 (DESIGN.md §10.10).
+R11 = {
+ "C01": "no byte slice carried across reader rounds is a view of the refilled line buffer",
+ "C03": "no byte slice carried across reader rounds is a view of the refilled line buffer",
+ "C05": "nothing RevComp calls writes the strand before it is negated",
+ "C07": "quality-vs-threshold comparisons agree between row and column views; columns cut from a shared block carry a capacity limit",
+ "C09": "sequence and border subscripts within bounds for all lengths including zero (exhaustive over the linear forms); alphabet used only after a nil test; Repeat returns count letters",
+ "C11": "buffers in circulation are re-sliced from 0 (capacity kept)",
+ "C12": "buffers in circulation are re-sliced from 0 (capacity kept)",
+ "C15": "covered mark made at the absolute number of the trapezoid examined",
+ "C17": "a failed round trip on either definition string rejects by itself",
+ "C18": "half a unit added before every float to Phred conversion",
+ "C19": "the queue fed by Map's unjoined producer is closed by nothing else",
+}
+
 NOT_APPLICABLE = {
 }
 
@@ -250,6 +265,10 @@ def main():
                 tech = tech + "; " + R8[pid]
                 text = text + " Round 8 (DESIGN §10.7) adds: " + R8[pid] + "."
                 ref = ref + ", §10.7"
+            if pid in R11:
+                tech = tech + "; " + R11[pid]
+                text = text + " Round 11 (DESIGN §10.10) adds: " + R11[pid] + "."
+                ref = ref + ", §10.10"
             text = text + " The thorough tier also replays the independently written behaviour-preserving refactorings of /verif/benign (DESIGN §10.8, §10.9) and fails if one of them is reported."
             checks.append({
                 "property_id": pid,
